@@ -1398,6 +1398,155 @@ end
 /-- `Printable q`: `q` has the shape of a query the parser can produce -/
 def Printable (q : Query) : Bool := okQ true 1 q
 
+/-! ### printing a whole program (module header, imports, definitions-only body) -/
+
+mutual
+  def itemsCT : CTerm → List Item
+    | .obj kvs => itemsCObj kvs
+    | .arr es =>
+      (match es with
+       | [] => [c 91, c 93]
+       | e :: es' => c 91 :: (itemsCT e ++ (itemsCTsT es' ++ [c 93])))
+    | .number s => [.t (.number s)]
+    | .str v => [.t (.str v)]
+    | .null => [k .null_]
+    | .true_ => [k .true_]
+    | .false_ => [k .false_]
+  def itemsCObj : List CKV → List Item
+    | [] => [c 123, c 125]
+    | kv :: kvs => c 123 :: .sp :: (itemsCKV kv ++ (itemsCKVsT kvs ++ [.sp, c 125]))
+  def itemsCKV : CKV → List Item
+    | .mk isStr key v => .t (if isStr then .str key else keyTok key) :: c 58 :: .sp :: itemsCT v
+  def itemsCKVsT : List CKV → List Item
+    | [] => []
+    | kv :: kvs => c 44 :: .sp :: (itemsCKV kv ++ itemsCKVsT kvs)
+  def itemsCTsT : List CTerm → List Item
+    | [] => []
+    | e :: es => c 44 :: .sp :: (itemsCT e ++ itemsCTsT es)
+end
+
+def itemsMeta : Option (List CKV) → List Item
+  | none => []
+  | some kvs => .sp :: itemsCObj kvs
+
+def itemsImport : Import → List Item
+  | .import_ path a m => k .import_ :: .sp :: .t (.str path) :: .sp :: k .as_ :: .sp :: .t (keyTok a) ::
+      (itemsMeta m ++ [c 59, .nl])
+  | .include_ path m => k .include_ :: .sp :: .t (.str path) :: (itemsMeta m ++ [c 59, .nl])
+
+def itemsBody : Body → List Item
+  | .defs ds => ds.flatMap (fun fd => itemsFD fd ++ [.sp])
+  | .query q => itemsQ q
+
+def itemsProgram (p : Program) : List Item :=
+  (match p.md with
+   | none => []
+   | some kvs => k .module_ :: .sp :: (itemsCObj kvs ++ [c 59, .nl])) ++
+  (p.imports.flatMap itemsImport ++ itemsBody p.body)
+
+/-- `q.String()` of a whole program -/
+def printProgram (p : Program) : Bytes := render none (itemsProgram p)
+
+/-! ### lexing printed text: which token sequences with the printer's separators read back -/
+
+/-- the operators that are tokens of their own class (`//`, the update and comparison operators) -/
+def isOpTok (o : BOp) : Bool :=
+  match o with
+  | .alt | .assign | .modify | .updAdd | .updSub | .updMul | .updDiv | .updMod | .updAlt
+  | .eq | .ne | .lt | .le | .gt | .ge => true
+  | _ => false
+
+/-- bytes that are always a token of their own: `( ) [ ] { } , : ;` -/
+def isSolo (c : UInt8) : Bool :=
+  c == 40 || c == 41 || c == 91 || c == 93 || c == 123 || c == 125 || c == 44 || c == 58 || c == 59
+
+/-- bytes that are a token of their own unless `=` follows: `| + - * %` -/
+def isEqExt (c : UInt8) : Bool := c == 124 || c == 43 || c == 45 || c == 42 || c == 37
+
+/-- the scanner that reads `t` stops at the end of `t`'s spelling when `fol` follows -/
+def stops : Tok → Bytes → Bool
+  | .ch c, fol =>
+    if isSolo c then true
+    else if c == 46 then !(peek fol == 46 || isIdent (peek fol) false || isNumber (peek fol))
+    else if isEqExt c then !(peek fol == 61)
+    else if c == 47 then !(peek fol == 61 || peek fol == 47)
+    else if c == 63 then !(peek fol == 47 && peek (fol.drop 1) == 47)
+    else false
+  | .ident _, fol | .kw _, fol | .var _, fol =>
+    !isIdent (peek fol) true &&
+      (match fol with | 58 :: 58 :: c :: _ => !isIdent c false | _ => true)
+  | .modIdent _, fol | .modVar _, fol | .index _, fol | .format _, fol => !isIdent (peek fol) true
+  | .number _, fol => !(isNumber (peek fol) || peek fol == 46 || isIdent (peek fol) false)
+  | .recurse, _ => true
+  | .op o, fol =>
+    (match o with
+     | .alt | .assign | .lt | .gt => !(peek fol == 61)
+     | _ => true)
+  | .destAlt, _ => true
+  | .str _, _ => true
+  | .strStart, fol => (match scanString fol 0 with | .interp _ => true | _ => false)
+  | .chunk _, fol => (match fol with | 34 :: _ => true | 92 :: 40 :: _ => true | _ => false)
+  | .strQuery, _ => true
+  | .strEnd, _ => true
+  | .bad _, _ => false
+
+/-- the single-byte tokens the printer writes -/
+def okCh (c : UInt8) : Bool := isSolo c || c == 46 || isEqExt c || c == 47 || c == 63
+
+/-- the token is one the lexer can deliver, with a spelling it reads back as that token -/
+def Tok.wf : Tok → Bool
+  | .ch c => okCh c
+  | .ident s => isPlainIdent s
+  | .modIdent s => isModIdent s
+  | .var s => isVarName s
+  | .modVar s => isModVar s
+  | .index s => isIdentName s
+  | .number s => okNumber s
+  | .format s => okFormat s
+  | .kw _ => true
+  | .recurse => true
+  | .op o => isOpTok o
+  | .destAlt => true
+  | .str v => okLit v
+  | .chunk v => okLit v && !v.isEmpty
+  | .strStart => true
+  | .strQuery => true
+  | .strEnd => true
+  | .bad _ => false
+
+/-- tokens read in string mode -/
+def Tok.inStrTok : Tok → Bool
+  | .chunk _ => true
+  | .strQuery => true
+  | .strEnd => true
+  | _ => false
+
+/-- `inString` after the token -/
+def Tok.modeAfter : Tok → Bool
+  | .strStart => true
+  | .chunk _ => true
+  | _ => false
+
+/-- THE ADJACENCY CONDITION, decidable: every token is well-formed and read in the mode the
+    tokens before it leave the lexer in, its scanner stops before the text rendered after it, and
+    the printer's separators appear outside strings only.  `last` = the last byte written before
+    the items (for the printer's `soft` space), `inStr` / `stk` = the tokenizer's mode. -/
+def itemsOK : Option UInt8 → Bool → List Nat → List Item → Bool
+  | _, _, _, [] => true
+  | last, inStr, stk, .t t :: r =>
+    t.wf && (t.inStrTok == inStr) && stops t (render (lastOr t.spell last) r) &&
+      itemsOK (lastOr t.spell last) (if (stepStk t stk).2 then true else t.modeAfter) (stepStk t stk).1 r
+  | _, inStr, stk, .sp :: r => !inStr && itemsOK (some 32) false stk r
+  | _, inStr, stk, .nl :: r => !inStr && itemsOK (some 10) false stk r
+  | last, inStr, stk, .soft :: r =>
+    !inStr &&
+      (match last with
+       | some ch => if isDotOrDigit ch then itemsOK (some 32) false stk r else itemsOK last false stk r
+       | none => itemsOK none false stk r)
+
+/-- `Spaced q`: the printed text of `q` satisfies the adjacency condition (decidable) -/
+def Spaced (q : Query) : Bool := itemsOK none false [] (itemsQ q)
+
 /-- executable self-check (used by the exploratory stream only): the reference parser's result is
     Printable and parsing its token-level print gives it back -/
 def selfCheck (src : Bytes) : String :=
@@ -1405,6 +1554,7 @@ def selfCheck (src : Bytes) : String :=
   | none => "rejected"
   | some q =>
     if !Printable q then "NOT-PRINTABLE"
+    else if !Spaced q then "NOT-SPACED"
     else
       let ts := tokensOf (printQ q)
       if ts != toks (itemsQ q) then "LEX-MISMATCH"
